@@ -171,8 +171,8 @@ def ops_table():
     add("translation", lambda p, q: g.translation(p) * q, P2, P2)
     add("translation3", lambda p, q: g.translation(p) * q, P3, P3)
     add("rotation-axis", lambda a, q: g.rotation(0.7, axis=a) * q, P3, P3)
-    add("reflection", lambda h, p: g.reflection(h) * p, ["l2a"], P2)
-    add("reflection3", lambda h, p: g.reflection(h) * p, ["e3a"], P3)
+    add("reflection", lambda h, p: g.reflection(h) * p, ["l2a"], P2, cplx=True)
+    add("reflection3", lambda h, p: g.reflection(h) * p, ["e3a"], P3, cplx=True)
     add("q-contains", lambda q, p: q.contains(p), ["conic", "circle"], P2 + ["p2on"])
     add("q-intersect", lambda q, l: q.intersect(l), ["conic", "circle"], ["l2a", "l2b"])
     add("q-intersect3", lambda q, l: q.intersect(l), ["sphere", "cone"], ["l3a", "l3b"])
@@ -323,6 +323,32 @@ def directed(ctx, prefix="C03"):
                 break
 
 
+def polyhedron_eq_stream(ctx, n, prefix="C03"):
+    """== of polyhedra is symmetric and compares the SETS of faces: a polyhedron with a repeated face (given by another
+    representative / start vertex / direction) is not equal to one with that face replaced by a different one, in either order"""
+    import geometer as g
+    rng = ctx.rng
+    for k in range(n):
+        o = np.array([float(rng.randint(-2, 2)) for _ in range(3)])
+        A, B, C, D = o, o + [2.0, 0, 0], o + [0, 2.0, 0], o + [0, 0, 2.0]
+        def face(pts, roll=0, rev=False, w=1.0):
+            pts = list(pts)
+            pts = pts[roll:] + pts[:roll]
+            if rev:
+                pts = pts[::-1]
+            return g.Polygon(*[g.Point(np.append(p, 1.0) * w) for p in pts])
+        f1, f2, f3, f4 = (A, B, C), (A, B, D), (A, C, D), (B, C, D)
+        tet = g.Polyhedron(face(f1), face(f2), face(f3), face(f4))
+        rep = g.Polyhedron(face(f1), face(f2), face(f3), face(f3, roll=rng.randint(0, 2), rev=rng.random() < 0.5, w=rng.choice([1.0, 2.0, -1.0])))
+        same = g.Polyhedron(face(f4, roll=1), face(f2, rev=True), face(f1, w=2.0), face(f3, roll=2))
+        desc = f"polyhedra on the tetrahedron with corner {o.tolist()}: full, with a repeated face, reordered"
+        ctx.case(desc)
+        ctx.count("polyhedron-eq")
+        r = call_impl(lambda: (tet == rep, rep == tet, tet == same, same == tet, tet == tet))
+        if r[0] != "ok" or r[1] != (False, False, True, True, True):
+            ctx.disagree(f"{prefix}:polyhedron-eq", desc, (False, False, True, True, True), r[1:3], replay=[desc])
+
+
 def chain_collections(ctx, n):
     """join -> meet -> join chains on point collections with two collection axes whose elements carry moderate factors of
     their own (the intermediate results are renormalised per element): same projective results as for the unscaled points"""
@@ -380,6 +406,7 @@ def correspondence(ctx):
         scaled = rescale(args[pos], lam, rng)
         one_case(ctx, table, name, names, args, pos, lam, scaled)
     directed(ctx)
+    polyhedron_eq_stream(ctx, ctx.budget(15, 150))
     from props import c13
     c13.int_homogeneous_centres(ctx, ctx.budget(30, 300), prefix="C03")
     # == is false for clear non-multiples
